@@ -49,10 +49,12 @@ class Session(object):
         self.net.uninstall()
 
     def watch(self, chip, origin, size):
+        """chip: (x, y), or (x, y, p) for a window of core p's own (tightly coupled) memory"""
         for c, o, sz, init in self.windows:
             if c == chip and o == origin and sz >= size:
                 return                      # already observed (windows of one chip must not overlap)
-        self.windows.append([chip, origin, size, list(self.sim.chips[chip].read(origin, size))])
+        core = chip[2] if len(chip) > 2 else 0
+        self.windows.append([chip, origin, size, list(self.sim.chips[tuple(chip[:2])].read(origin, size, core))])
 
     def drain(self):
         """turn the commands the simulator executed since the last call into events"""
@@ -68,7 +70,7 @@ class Session(object):
                 data = list(rec["data"])
             via = rec.get("via", (rec["x"], rec["y"]))
             self.evs.append(["cmd", kind, rec["x"], rec["y"], halves(addr), n, typ, data,
-                             list(rec.get("reply_data", b"")), rec.get("rc") or 0, via[0], via[1]])
+                             list(rec.get("reply_data", b"")), rec.get("rc") or 0, via[0], via[1], rec["p"]])
         self.logpos = len(self.sim.log)
 
     def op(self, kind, chip, addr, n, data, f):
@@ -80,14 +82,14 @@ class Session(object):
         self.drain()
         if kind in ("read", "sread"):
             data = list(r) if isinstance(r, (bytes, bytearray, list)) else (data or [])
-        self.evs.append(["op", kind, chip[0], chip[1], addr, n, list(data), result])
+        self.evs.append(["op", kind, chip[0], chip[1], addr, n, list(data), result, chip[2] if len(chip) > 2 else 0])
         return r
 
     def trace(self, label):
         wins = [dict(chip=list(c), origin=halves(o), init=init) for c, o, size, init in self.windows]
         evs = list(self.evs)
         for i, (c, o, size, init) in enumerate(self.windows):
-            evs.append(["final", i + 1, list(self.sim.chips[c].read(o, size))])
+            evs.append(["final", i + 1, list(self.sim.chips[tuple(c[:2])].read(o, size, c[2] if len(c) > 2 else 0))])
         return dict(bufsize=self.bufsize, windows=wins, ev=evs, label=label)
 
 
@@ -192,6 +194,24 @@ def misc_session(rng, bufsize, window, fate, label):
             v = rng.randrange(256 ** PACK_SIZE[pack]) if pack.isupper() or pack == "v" else rng.randrange(-100, 100)
             s.op("swrite", chip, addr, PACK_SIZE[pack], _packed(v, pack, 1),
                  lambda: s.mc.write_vcpu_struct_field(name, v, chip[0], chip[1], p))
+        # the one text field of the per-core block (app_name, 16 bytes): names that fit are stored NUL-padded; a
+        # name that does not fit cannot be stored whole - whatever is done with it, no byte outside the field
+        # may change ("sconf": only confinement is judged, whatever the outcome)
+        off, pack, cnt = vc["fields"]["app_name"]
+        for text in rng.sample(["", "a", "my_app.aplx", "sixteen_chars_xx", "caf\u00e9", "\u00e9" * 8, "seventeen_chars_xx",
+                                "\u00e9" * 9, "x" * 30], 4):
+            chip = chip0 if rng.random() < 0.5 else other
+            vbase = sim.chips[chip].vcpu_base
+            s.watch(chip, vbase, vc["size"] * 18)
+            p = rng.randrange(18)
+            addr = [halves(vbase), off, p, vc["size"], halves(sim.sv_addr("vcpu_base"))]
+            raw = text.encode("utf-8")
+            if len(raw) <= cnt:
+                s.op("swrite", chip, addr, cnt, list(bytearray(raw.ljust(cnt, b"\0"))),
+                     lambda: s.mc.write_vcpu_struct_field("app_name", text, chip[0], chip[1], p))
+            else:
+                s.op("sconf", chip, addr, cnt, [],
+                     lambda: s.mc.write_vcpu_struct_field("app_name", text, chip[0], chip[1], p))
         chip = chip0
         # across links
         if bufsize >= 4:
@@ -206,6 +226,33 @@ def misc_session(rng, bufsize, window, fate, label):
                 data = bytes(rng.randrange(256) for _ in range(n))
                 s.op("write", nb, halves(a), n, data, lambda: s.mc.write_across_link(a, data, chip[0], chip[1], link))
                 s.op("read", nb, halves(a), n, None, lambda: s.mc.read_across_link(a, n, chip[0], chip[1], link))
+        return s.trace(label)
+    finally:
+        s.close()
+
+
+def core_local_session(rng, bufsize, window, fate, label):
+    """reads, writes and fills of the memory every core has to itself (the same addresses on every core), for
+    cores 0..17: a transfer addressed to one core must reach that core's memory and no other core's"""
+    s = Session(rng, bufsize, window, fate)
+    try:
+        xy = (rng.randrange(2), rng.randrange(2))
+        origin = 0x00400000 + 0x100
+        cores = sorted(set(rng.sample(range(18), 4)) | {rng.choice((16, 17)), rng.choice((0, 1))})
+        def key(core):                       # (core 0's is the memory plain chip addressing reaches)
+            return (xy[0], xy[1], core) if core else xy
+        for core in cores:
+            s.watch(key(core), origin, 3 * bufsize + 24)
+        for core in cores + rng.sample(cores, 2):
+            chip = key(core)
+            a = origin + rng.randrange(8)
+            n = rng.choice((1, 4, 7, bufsize, 2 * bufsize + 3))
+            data = bytes(rng.randrange(256) for _ in range(n))
+            s.op("write", chip, halves(a), n, data, lambda: s.mc.write(a, data, xy[0], xy[1], core))
+            s.op("read", chip, halves(a), n, None, lambda: s.mc.read(a, n, xy[0], xy[1], core))
+            a4 = origin + 4 * rng.randrange(3)
+            s.op("fillw", chip, halves(a4), 8, list(struct.pack("<I", 0x0a0b0c0d) * 2),
+                 lambda: s.mc.fill(a4, 0x0a0b0c0d, 8, xy[0], xy[1], core))
         return s.trace(label)
     finally:
         s.close()
@@ -266,6 +313,11 @@ def run(chk):
                 rate = rng.choice((0, 0, 0.05, 0.1))
                 traces.append(rw_session(rng, B, window, off, lengths, faults(rng, rate),
                                          "rw B=%d W=%d off=%d faults=%s" % (B, window, off, rate)))
+    # each core's own memory, cores 0..17
+    for B in chk.pick((8, 64), (4, 8, 16, 64, 256)):
+        for window in (1, 3):
+            traces.append(core_local_session(rng, B, window, faults(rng, rng.choice((0, 0, 0.05))),
+                                             "core-local memory B=%d W=%d" % (B, window)))
     # every kind of operation as the first thing a fresh controller does
     for B in chk.pick((16, 128), (8, 16, 64, 128, 255, 256)):
         for kind in ("link_read", "link_write", "read", "write", "fill"):
